@@ -51,6 +51,52 @@ type expectation struct {
 	sumMulti  uint64
 	sumDist   uint64
 	either    []string // reasons why the property does not decide the outcome of a fault-free run
+	// Message size limit (coverage bookkeeping only; the statement says nothing
+	// about messages larger than the configured maximum, so no clause uses it).
+	arOver  bool // the ActionResult is larger than the limit
+	dirOver int  // Directory messages (root/children fields of readable Trees, repeats kept) larger than the limit
+	maxDir  int  // largest such Directory message
+}
+
+// fieldBoundaries returns the offsets at which the top-level fields of an
+// encoded message end (the last one is len(data) for a well-formed message).
+func fieldBoundaries(data []byte) []int {
+	var out []int
+	for off := 0; off < len(data); {
+		num, typ, n := protowire.ConsumeTag(data[off:])
+		if n < 0 {
+			break
+		}
+		m := protowire.ConsumeFieldValue(num, typ, data[off+n:])
+		if m < 0 {
+			break
+		}
+		off += n + m
+		out = append(out, off)
+	}
+	return out
+}
+
+// treeDirectories returns the encoded Directory messages (root and children
+// fields) of an encoded Tree, in wire order.
+func treeDirectories(data []byte) [][]byte {
+	var out [][]byte
+	for rest := data; len(rest) > 0; {
+		num, typ, n := protowire.ConsumeTag(rest)
+		if n < 0 {
+			break
+		}
+		m := protowire.ConsumeFieldValue(num, typ, rest[n:])
+		if m < 0 {
+			break
+		}
+		if typ == protowire.BytesType && (num == 1 || num == 2) {
+			v, _ := protowire.ConsumeBytes(rest[n:])
+			out = append(out, v)
+		}
+		rest = rest[n+m:]
+	}
+	return out
 }
 
 func satAdd(a, b uint64) uint64 {
@@ -101,6 +147,7 @@ func evaluate(w *world, cfg runCfg) *expectation {
 	if len(w.arBytes)+2 >= cfg.maxMsg {
 		e.either = append(e.either, "action result at the message size limit")
 	}
+	e.arOver = len(w.arBytes) > cfg.maxMsg
 	for _, f := range ar.OutputFiles {
 		e.ref(f.Digest, "output-file", w.hashLen)
 	}
@@ -167,6 +214,14 @@ func evaluate(w *world, cfg runCfg) *expectation {
 				e.either = append(e.either, "directory at the message size limit")
 			}
 			rest = rest[n+m:]
+		}
+		for _, d := range treeDirectories(data) {
+			if len(d) > cfg.maxMsg {
+				e.dirOver++
+			}
+			if len(d) > e.maxDir {
+				e.maxDir = len(d)
+			}
 		}
 		dirs := append([]*remoteexecution.Directory{}, tree.Children...)
 		if tree.Root != nil {
@@ -362,6 +417,16 @@ func (h harness) execute(w *world, cfg runCfg) outcome {
 		if unrequiredAbsent(w, exp) {
 			rw.Count("returned_unrequired_directory_absent", 1)
 		}
+		if exp.maxDir > 0 && exp.maxDir == cfg.maxMsg {
+			rw.Count("returned_directory_at_message_limit", 1)
+		}
+		if exp.dirOver > 0 {
+			// The statement does not say that a Directory larger than the
+			// message size limit withholds the result (the code refuses it);
+			// what it demands - every file listed in it reported present - is
+			// asserted below. Observed only.
+			rw.Count("observed_returned_with_directory_over_message_limit", 1)
+		}
 		// Identity of what was returned.
 		stored := &remoteexecution.ActionResult{}
 		if !exp.arOK {
@@ -427,6 +492,9 @@ func (h harness) execute(w *world, cfg runCfg) outcome {
 		}
 	}
 	over := exp.oversized(cfg)
+	if exp.arOK && !exp.arOver && exp.dirOver > 0 && !cfg.flaky && !faulted && len(treeBad) == 0 {
+		rw.Count("refused_directory_over_message_limit", 1)
+	}
 	switch {
 	case acBad:
 		rw.Count("refused_ac_entry_unreadable", 1)
